@@ -48,7 +48,7 @@ def seeded_table(pred, needs=False, obl=False):
         nd = ("%s%s | " % (meta.get("needs_to_manifest", ""), " *(%s)*" % meta["history"] if meta.get("history") else "")) if needs else ""
         rep = next((l for l in ck.get("report", []) if l.startswith("# ")), "")
         rep = re.sub(r"\|", r"\\|", rep[2:110])
-        extra = " (missed before the fifth hardening round: %s)" % ck["was_missed_before"][:90] if "was_missed_before" in ck else ""
+        extra = " (missed on its first run: %s)" % ck["was_missed_before"][:90] if "was_missed_before" in ck else ""
         if rep.startswith("proof-break"): rep = next((re.sub(r"\|", r"\\|", l[2:110]) for l in ck.get("report", []) if l.startswith("# ") and not l.startswith("# proof-break")), rep[:60])
         rows.append("| %s | %s%s | %s%s%s |" % (mid, nd, "VIOLATION" if ck.get("detected") else "**not detected**", (flagged(ck) + " | ") if obl else "", "`%s`" % rep if rep else ck.get("why_missed", ""), extra))
     return "\n".join(rows)
@@ -63,5 +63,6 @@ s = splice(s, "SEEDED-WAVE-4", seeded_table(lambda m: bool(re.search(r"_a\d$", m
 s = splice(s, "SEEDED-WAVE-5", seeded_table(lambda m: bool(re.search(r"_b\d$", m)), False, True))
 s = splice(s, "SEEDED-WAVE-6", seeded_table(lambda m: bool(re.search(r"_c\d$", m)), False, True))
 s = splice(s, "SEEDED-WAVE-7", seeded_table(lambda m: bool(re.search(r"_d\d$", m)), False, True))
+s = splice(s, "SEEDED-WAVE-8", seeded_table(lambda m: bool(re.search(r"_e\d$", m)), False, True))
 open(p, "w").write(s)
 print("DESIGN.md tables regenerated")
